@@ -124,8 +124,15 @@ func census(dir string, baseline map[int64]bool, what string) *Violation {
 }
 
 func storeOptsBusy(cfg Config) []store.Option {
+	// A third of the configurations (chosen by a configuration bit, so that a
+	// case stays a pure function of its JSON) cut the collectors' cycles
+	// short by the clock.
+	limit := time.Duration(0)
+	if (int(cfg.Bits)+int(cfg.IdxSize)+int(cfg.PrimSize))%3 == 0 {
+		limit = 50 * time.Microsecond
+	}
 	return []store.Option{store.IndexBitSize(cfg.Bits), store.IndexFileSize(cfg.IdxSize), store.PrimaryFileSize(cfg.PrimSize), store.FileCacheSize(cfg.FileCache),
-		store.GCInterval(time.Millisecond), store.GCTimeLimit(0), store.SyncInterval(time.Millisecond), store.BurstRate(1 << 40), store.SyncOnFlush(cfg.Sync)}
+		store.GCInterval(time.Millisecond), store.GCTimeLimit(limit), store.SyncInterval(time.Millisecond), store.BurstRate(1 << 40), store.SyncOnFlush(cfg.Sync)}
 }
 
 func openBusy(dir string, cfg Config) (*store.Store, error) {
